@@ -169,6 +169,7 @@ class Session:
         self.epoch = 0
         it = self.it
         it.hooks["suspend"] = self.on_suspend
+        it.hooks["on_write"] = self.on_obj_write
         it.hooks["listener_sockets"] = self.listener_sockets
         self.srvmod = it.modules[SERVER]
         self.ghost = {"auth_user": None, "auth_ok": False}
@@ -569,6 +570,11 @@ class Session:
 
     def on_load(self, it, name):
         pass
+
+    def on_obj_write(self, it, obj, name):
+        """frame (C17): session code keeps per-session state in its own connection object, never on the shared Server"""
+        if obj is getattr(self, "server", None) and it.call_stack:
+            self.ctx.check(f"{self.cur_fn()}/frame:no-session-state-on-the-shared-server-object:{name}", z3.BoolVal(False), info={"props": ["C17"]})
 
     def all_streams(self):
         out = [self.conn.slots["command_connection"].fut.value]
